@@ -69,8 +69,95 @@ package bchutil
 //@ func bchutil.(*Tx).Hash
 //@   requires t.msgTx != nil
 //@   ensures result != nil && t.txHash == result && (old(t.txHash) != nil ==> result == old(t.txHash))
+//@   ensures (old(t.txHash) == nil || forall k :: 0 <= k && k < 32 ==> old(t.txHash[k]) == wire.th(t.msgTx.ref, t.msgTx.off, k)) ==> forall k :: 0 <= k && k < 32 ==> result[k] == wire.th(t.msgTx.ref, t.msgTx.off, k)
+//@   ensures t.msgTx == old(t.msgTx) && t.txIndex == old(t.txIndex)
 //@   modifies t.txHash
 
 //@ func bchutil.(*Tx).MsgTx
 //@   ensures result == t.msgTx
+//@   modifies nothing
+
+// ---- Block / Tx wrappers (C16): the cache invariant wf(b) is required and re-established by every accessor
+
+//@ func bchutil.(*Block).MsgBlock
+//@   ensures result == b.msgBlock
+//@   modifies nothing
+
+//@ func bchutil.(*Block).Hash
+//@   requires b.msgBlock != nil
+//@   requires len(b.transactions) == 0 || len(b.transactions) == len(b.msgBlock.Transactions)
+//@   requires forall k :: 0 <= k && k < len(b.transactions) ==> (b.transactions[k] != nil ==> b.transactions[k].msgTx == b.msgBlock.Transactions[k] && b.transactions[k].txIndex == k)
+//@   requires b.txnsGenerated ==> len(b.transactions) == len(b.msgBlock.Transactions) && forall k :: 0 <= k && k < len(b.transactions) ==> b.transactions[k] != nil
+//@   requires b.blockHash != nil ==> forall k :: 0 <= k && k < 32 ==> b.blockHash[k] == wire.bh(b.msgBlock.ref, b.msgBlock.off, k)
+//@   requires forall k :: 0 <= k && k < len(b.msgBlock.Transactions) ==> b.msgBlock.Transactions[k] != nil
+//@   ensures result != nil && result == b.blockHash && (old(b.blockHash) != nil ==> result == old(b.blockHash))
+//@   ensures b.msgBlock != nil
+//@   ensures len(b.transactions) == 0 || len(b.transactions) == len(b.msgBlock.Transactions)
+//@   ensures forall k :: 0 <= k && k < len(b.transactions) ==> (b.transactions[k] != nil ==> b.transactions[k].msgTx == b.msgBlock.Transactions[k] && b.transactions[k].txIndex == k)
+//@   ensures b.txnsGenerated ==> len(b.transactions) == len(b.msgBlock.Transactions) && forall k :: 0 <= k && k < len(b.transactions) ==> b.transactions[k] != nil
+//@   ensures b.blockHash != nil ==> forall k :: 0 <= k && k < 32 ==> b.blockHash[k] == wire.bh(b.msgBlock.ref, b.msgBlock.off, k)
+//@   ensures forall k :: 0 <= k && k < len(b.msgBlock.Transactions) ==> b.msgBlock.Transactions[k] != nil
+//@   modifies b.blockHash
+
+//@ func bchutil.(*Block).Tx
+//@   requires b.msgBlock != nil
+//@   requires len(b.transactions) == 0 || len(b.transactions) == len(b.msgBlock.Transactions)
+//@   requires forall k :: 0 <= k && k < len(b.transactions) ==> (b.transactions[k] != nil ==> b.transactions[k].msgTx == b.msgBlock.Transactions[k] && b.transactions[k].txIndex == k)
+//@   requires b.txnsGenerated ==> len(b.transactions) == len(b.msgBlock.Transactions) && forall k :: 0 <= k && k < len(b.transactions) ==> b.transactions[k] != nil
+//@   requires b.blockHash != nil ==> forall k :: 0 <= k && k < 32 ==> b.blockHash[k] == wire.bh(b.msgBlock.ref, b.msgBlock.off, k)
+//@   requires forall k :: 0 <= k && k < len(b.msgBlock.Transactions) ==> b.msgBlock.Transactions[k] != nil
+//@   ensures (txNum < 0 || txNum >= len(b.msgBlock.Transactions)) ==> err != nil && result0 == nil
+//@   ensures (0 <= txNum && txNum < len(b.msgBlock.Transactions)) ==> err == nil && result0 != nil && result0 == b.transactions[txNum] && result0.msgTx == b.msgBlock.Transactions[txNum] && result0.txIndex == txNum
+//@   ensures (0 <= txNum && txNum < len(old(b.transactions)) && old(b.transactions[txNum]) != nil) ==> result0 == old(b.transactions[txNum])
+//@   ensures b.msgBlock != nil
+//@   ensures len(b.transactions) == 0 || len(b.transactions) == len(b.msgBlock.Transactions)
+//@   ensures forall k :: 0 <= k && k < len(b.transactions) ==> (b.transactions[k] != nil ==> b.transactions[k].msgTx == b.msgBlock.Transactions[k] && b.transactions[k].txIndex == k)
+//@   ensures b.txnsGenerated ==> len(b.transactions) == len(b.msgBlock.Transactions) && forall k :: 0 <= k && k < len(b.transactions) ==> b.transactions[k] != nil
+//@   ensures b.blockHash != nil ==> forall k :: 0 <= k && k < 32 ==> b.blockHash[k] == wire.bh(b.msgBlock.ref, b.msgBlock.off, k)
+//@   ensures forall k :: 0 <= k && k < len(b.msgBlock.Transactions) ==> b.msgBlock.Transactions[k] != nil
+//@   modifies b.transactions, *b.transactions
+
+//@ func bchutil.(*Block).Transactions
+//@   requires b.msgBlock != nil
+//@   requires len(b.transactions) == 0 || len(b.transactions) == len(b.msgBlock.Transactions)
+//@   requires forall k :: 0 <= k && k < len(b.transactions) ==> (b.transactions[k] != nil ==> b.transactions[k].msgTx == b.msgBlock.Transactions[k] && b.transactions[k].txIndex == k)
+//@   requires b.txnsGenerated ==> len(b.transactions) == len(b.msgBlock.Transactions) && forall k :: 0 <= k && k < len(b.transactions) ==> b.transactions[k] != nil
+//@   requires b.blockHash != nil ==> forall k :: 0 <= k && k < 32 ==> b.blockHash[k] == wire.bh(b.msgBlock.ref, b.msgBlock.off, k)
+//@   requires forall k :: 0 <= k && k < len(b.msgBlock.Transactions) ==> b.msgBlock.Transactions[k] != nil
+//@   ensures len(result) == len(b.msgBlock.Transactions) && b.txnsGenerated
+//@   ensures forall k :: 0 <= k && k < len(result) ==> result[k] != nil && result[k].msgTx == b.msgBlock.Transactions[k] && result[k].txIndex == k
+//@   ensures forall k :: 0 <= k && k < len(old(b.transactions)) ==> (old(b.transactions[k]) != nil ==> result[k] == old(b.transactions[k]))
+//@   ensures b.msgBlock != nil
+//@   ensures len(b.transactions) == 0 || len(b.transactions) == len(b.msgBlock.Transactions)
+//@   ensures forall k :: 0 <= k && k < len(b.transactions) ==> (b.transactions[k] != nil ==> b.transactions[k].msgTx == b.msgBlock.Transactions[k] && b.transactions[k].txIndex == k)
+//@   ensures b.txnsGenerated ==> len(b.transactions) == len(b.msgBlock.Transactions) && forall k :: 0 <= k && k < len(b.transactions) ==> b.transactions[k] != nil
+//@   ensures b.blockHash != nil ==> forall k :: 0 <= k && k < 32 ==> b.blockHash[k] == wire.bh(b.msgBlock.ref, b.msgBlock.off, k)
+//@   ensures forall k :: 0 <= k && k < len(b.msgBlock.Transactions) ==> b.msgBlock.Transactions[k] != nil
+//@   modifies b.transactions, b.txnsGenerated, *b.transactions
+//@   loop 1 modifies *b.transactions
+//@   loop 1 invariant len(b.transactions) == len(b.msgBlock.Transactions) && b.msgBlock == old(b.msgBlock) && !b.txnsGenerated
+//@   loop 1 invariant forall k :: 0 <= k && k < len(b.msgBlock.Transactions) ==> b.msgBlock.Transactions[k] != nil
+//@   loop 1 invariant forall k :: 0 <= k && k < len(b.transactions) ==> (b.transactions[k] != nil ==> b.transactions[k].msgTx == b.msgBlock.Transactions[k] && b.transactions[k].txIndex == k)
+//@   loop 1 invariant forall k :: 0 <= k && k < $i ==> b.transactions[k] != nil
+//@   loop 1 invariant forall k :: 0 <= k && k < len(old(b.transactions)) ==> (old(b.transactions[k]) != nil ==> b.transactions[k] == old(b.transactions[k]))
+//@   loop 1 invariant b.blockHash == old(b.blockHash)
+
+//@ func bchutil.(*Block).Height
+//@   ensures result == b.blockHeight
+//@   modifies nothing
+
+//@ func bchutil.NewBlock
+//@   ensures result != nil && fresh(result) && result.msgBlock == msgBlock && len(result.transactions) == 0 && !result.txnsGenerated && result.blockHash == nil && len(result.serializedBlock) == 0 && result.blockHeight == -1
+//@   modifies nothing
+
+//@ func bchutil.NewTx
+//@   ensures result != nil && fresh(result) && result.msgTx == msgTx && result.txHash == nil && result.txIndex == -1
+//@   modifies nothing
+
+//@ func bchutil.(*Tx).SetIndex
+//@   ensures t.txIndex == index
+//@   modifies t.txIndex
+
+//@ func bchutil.(*Tx).Index
+//@   ensures result == t.txIndex
 //@   modifies nothing
